@@ -9,7 +9,14 @@ import (
 // ---- C07: a paused service holds requests and releases them intact (T2) ----
 
 func vDoRequestM(h http.Handler, n int, method, host, path string) {
+	vDoRequestC(h, n, method, host, path, "")
+}
+
+func vDoRequestC(h http.Handler, n int, method, host, path, cookie string) {
 	req := &http.Request{Method: method, URL: &url.URL{Path: path}, Header: http.Header{}, Host: host, RemoteAddr: "1.2.3.4:5"}
+	if cookie != "" {
+		req.Header["Cookie"] = []string{cookie}
+	}
 	req = req.WithContext(context.WithValue(context.Background(), vReqKey, n))
 	w := vNewRecorder()
 	vEmit(vEvent{kind: "arrive", req: n})
@@ -30,6 +37,11 @@ func HarnessPauseHoldDirected() {
 
 func HarnessPauseHold() {
 	vT2(vParam("preemptions", 1), vParam("firings", 10))
+	vWatchPauseEvents()
+	if !vDirected && vParam("policies", 2) == 2 {
+		// both default scheduling policies (earliest-started first / latest-started first) are explored
+		vSchedPolicy(vChoose("sched_policy", 2))
+	}
 	vSortMode = 0
 	router := NewRouter("/state")
 	interval := vDur("interval")
@@ -39,13 +51,25 @@ func HarnessPauseHold() {
 	drainTimeout := vDur("drain_timeout")
 	maxPause := vDur("max_pause")
 	topts := TargetOptions{HealthCheckConfig: HealthCheckConfig{Path: "/up", Interval: interval, Timeout: ptimeout}}
-	vInstallOldService(router, topts)
+	svc, _ := vInstallOldService(router, topts)
 	root := vRootChain(router)
 
 	health := vChoose("health_request", 2) == 1
 	method, path := "POST", "/x"
 	if health {
 		method, path = "GET", "/up"
+	}
+	// rollout scenario: the service also has rollout targets and the client has opted in to them; while it is held the
+	// rollout targets are replaced in place (continuation 7)
+	rolloutScenario := !vDirected && vParam("rollout_scenario", 1) == 1 && vChoose("rollout_scenario", 2) == 1
+	if rolloutScenario {
+		t, _ := NewTarget("rold:80", topts)
+		t.state = TargetStateHealthy
+		lb := &LoadBalancer{healthy: TargetList{}, all: TargetList{t}}
+		t.stateConsumer = lb
+		lb.updateHealthyTargets()
+		svc.rollout = lb
+		svc.rolloutController = NewRolloutController(0, []string{"x"})
 	}
 	arrival := vIntRange("arrival", 0, vParam("arrival_points", 8))
 	vProxyPlans[0] = &vProxyPlan{service: 0}
@@ -54,7 +78,11 @@ func HarnessPauseHold() {
 		vDaemon()
 		vArriveAfter(arrival)
 		clientParked = false
-		vDoRequestM(root, 0, method, "h", path)
+		if rolloutScenario {
+			vDoRequestC(root, 0, method, "h", path, RolloutCookieName+"=x")
+		} else {
+			vDoRequestM(root, 0, method, "h", path)
+		}
 	}()
 
 	// the operator acts after an arbitrary number of further events, or once nothing else can happen before it does
@@ -67,54 +95,79 @@ func HarnessPauseHold() {
 		vAssume(arrival == 0)
 		vBlockUntil(func() bool { return vHeld == 1 || vClientResults[0] != nil })
 	}
-	// the operator: pause, then one continuation
+	// the operator: pause, then one continuation. It runs in its own goroutine, so that the scheduler (and not the
+	// harness) decides how far the client has got when the pause lands
 	stopMsg := vString("stop_msg", 3)
-	vAssert(router.PauseService("svc", drainTimeout, maxPause) == nil, "pause: pause accepted")
-	vEmit(vEvent{kind: "paused"})
-	cont := vChoose("continuation", 7) // 0 wait for the timeout, 1 resume, 2 stop, 3 resume+pause, 4 redeploy then resume, 5 pause again then resume, 6 pause again then stop
+	cont := 0
 	released := ""
-	switch cont {
-	case 1:
-		after("resume_after")
-		vAssert(router.ResumeService("svc") == nil, "pause: resume accepted")
-		vEmit(vEvent{kind: "resumed"})
-		released = "resume"
-	case 2:
-		after("stop_after")
-		vAssert(router.StopService("svc", drainTimeout, stopMsg) == nil, "pause: stop accepted")
-		vEmit(vEvent{kind: "stopped"})
-		released = "stop"
-	case 3:
-		after("resume_after")
-		vAssert(router.ResumeService("svc") == nil, "pause: resume accepted")
-		vEmit(vEvent{kind: "resumed"})
-		vAssert(router.PauseService("svc", drainTimeout, maxPause) == nil, "pause: second pause accepted")
+	opDone := false
+	operator := func() {
+		vAssert(router.PauseService("svc", drainTimeout, maxPause) == nil, "pause: pause accepted")
 		vEmit(vEvent{kind: "paused"})
-		released = "resume+pause"
-	case 5, 6:
-		after("repause_after")
-		vAssert(router.PauseService("svc", drainTimeout, maxPause) == nil, "pause: repeated pause accepted")
-		vEmit(vEvent{kind: "paused"})
-		after("release_after")
-		if cont == 5 {
+		cont = 7 // rollout targets replaced while paused, then resume
+		if !rolloutScenario {
+			cont = vChoose("continuation", 7) // 0 wait for the timeout, 1 resume, 2 stop, 3 resume+pause, 4 redeploy then resume, 5 pause again then resume, 6 pause again then stop
+		}
+		switch cont {
+		case 1:
+			after("resume_after")
 			vAssert(router.ResumeService("svc") == nil, "pause: resume accepted")
 			vEmit(vEvent{kind: "resumed"})
 			released = "resume"
-		} else {
+		case 2:
+			after("stop_after")
 			vAssert(router.StopService("svc", drainTimeout, stopMsg) == nil, "pause: stop accepted")
 			vEmit(vEvent{kind: "stopped"})
 			released = "stop"
+		case 3:
+			after("resume_after")
+			vAssert(router.ResumeService("svc") == nil, "pause: resume accepted")
+			vEmit(vEvent{kind: "resumed"})
+			vAssert(router.PauseService("svc", drainTimeout, maxPause) == nil, "pause: second pause accepted")
+			vEmit(vEvent{kind: "paused"})
+			released = "resume+pause"
+		case 5, 6:
+			after("repause_after")
+			vAssert(router.PauseService("svc", drainTimeout, maxPause) == nil, "pause: repeated pause accepted")
+			vEmit(vEvent{kind: "paused"})
+			after("release_after")
+			if cont == 5 {
+				vAssert(router.ResumeService("svc") == nil, "pause: resume accepted")
+				vEmit(vEvent{kind: "resumed"})
+				released = "resume"
+			} else {
+				vAssert(router.StopService("svc", drainTimeout, stopMsg) == nil, "pause: stop accepted")
+				vEmit(vEvent{kind: "stopped"})
+				released = "stop"
+			}
+		case 7:
+			lat := vDur("lat")
+			vAssume(lat < ptimeout && lat < deployTimeout)
+			vProbeScripts["r1:80"] = &vProbeScript{parkAfter: true, outcomes: []vProbeOutcome{{kind: vProbeStatus, status: 200, latency: lat}}}
+			after("rollout_after")
+			vAssert(router.SetRolloutTargets("svc", []string{"r1:80"}, deployTimeout, drainTimeout) == nil, "pause: rollout deploy while paused accepted")
+			vEmit(vEvent{kind: "rollout_deployed"})
+			vAssert(router.ResumeService("svc") == nil, "pause: resume accepted")
+			vEmit(vEvent{kind: "resumed"})
+			released = "rollout+resume"
+		case 4:
+			lat := vDur("lat")
+			vAssume(lat < ptimeout && lat < deployTimeout)
+			vProbeScripts["new0:80"] = &vProbeScript{parkAfter: true, outcomes: []vProbeOutcome{{kind: vProbeStatus, status: 200, latency: lat}}}
+			after("redeploy_after")
+			vAssert(router.DeployService("svc", []string{"new0:80"}, ServiceOptions{Hosts: []string{"h"}}, topts, deployTimeout, drainTimeout) == nil, "pause: redeploy while paused accepted")
+			vEmit(vEvent{kind: "redeployed"})
+			vAssert(router.ResumeService("svc") == nil, "pause: resume accepted")
+			vEmit(vEvent{kind: "resumed"})
+			released = "redeploy+resume"
 		}
-	case 4:
-		lat := vDur("lat")
-		vAssume(lat < ptimeout && lat < deployTimeout)
-		vProbeScripts["new0:80"] = &vProbeScript{parkAfter: true, outcomes: []vProbeOutcome{{kind: vProbeStatus, status: 200, latency: lat}}}
-		after("redeploy_after")
-		vAssert(router.DeployService("svc", []string{"new0:80"}, ServiceOptions{Hosts: []string{"h"}}, topts, deployTimeout, drainTimeout) == nil, "pause: redeploy while paused accepted")
-		vEmit(vEvent{kind: "redeployed"})
-		vAssert(router.ResumeService("svc") == nil, "pause: resume accepted")
-		vEmit(vEvent{kind: "resumed"})
-		released = "redeploy+resume"
+		opDone = true
+	}
+	if vDirected {
+		operator()
+	} else {
+		go operator()
+		vBlockUntil(func() bool { return opDone })
 	}
 	vCmdReturned = true
 	vBlockUntil(func() bool { return vClientsSettled(1) })
@@ -128,12 +181,20 @@ func HarnessPauseHold() {
 	gi := vIndexOf("gate_enter", -1)
 	fwd := vIndexOf("forward_begin", 0)
 	if health {
-		// answered by the proxy itself while paused (or forwarded if it arrived after a resume)
-		vAssert(res.status == 200, "pause: GET on exactly the health-check path is answered 200 throughout")
-		if gi < 0 {
-			vAssert(fwd < 0, "pause: the health request answered by the proxy is not forwarded")
+		// answered by the proxy itself while paused or stopped; never held. One that found the service still running is an
+		// ordinary request past the gate
+		ai := vIndexOf("arrive", 0)
+		pausedIdx := vIndexOf("paused", -1)
+		if res.status == 503 && fwd < 0 && vIndexOf("drain_begin", -1) >= 0 && !(pausedIdx >= 0 && ai > pausedIdx) {
+			vAssert(false, "pause: issuing the pause never causes a request to be refused [request past the gate when the drain began]")
+			return
 		}
-		vCover(gi < 0, "health check answered by the proxy reachable")
+		vAssert(res.status == 200, "pause: GET on exactly the health-check path is answered 200 throughout")
+		vAssert(gi < 0 || PauseState(vTrace[gi].status) == PauseStateRunning, "pause: a health-check request is never held")
+		if pausedIdx >= 0 && ai > pausedIdx && vIndexOf("resume_effective", -1) < 0 {
+			vAssert(fwd < 0, "pause: a health-check request arriving while the service is paused is answered by the proxy itself")
+		}
+		vCover(fwd < 0, "health check answered by the proxy reachable")
 		return
 	}
 	vAssert(gi >= 0, "pause: a non-health request consults the pause gate")
@@ -166,6 +227,15 @@ func HarnessPauseHold() {
 		}
 	}
 	li := vIndexOf("gate_leave", -1)
+	if cont == 3 {
+		// resumed and immediately paused again: a request still held must stay held unless it was released in between
+		// (one that slips through is then subject to the second pause's drain, so its final status varies)
+		secondPause := vLastIndexOf("pause_effective")
+		if resumedIdx >= 0 && secondPause > resumedIdx && li > secondPause && fwd > secondPause {
+			vAssert(false, "pause: a request is not forwarded while the service is paused [woken waiter re-reads the state after resume+pause]")
+			return
+		}
+	}
 	switch {
 	case res.status == 504:
 		vAssert(res.at == timeoutAt, "pause: a held request is answered 504 exactly when it has been held for max-pause")
@@ -191,15 +261,15 @@ func HarnessPauseHold() {
 		if cont == 4 {
 			want = "FROM[new0:80]"
 		}
-		if res.body != want {
-			vAssert(false, "pause: on resume a held request is forwarded to the targets the service has at that moment [waiter holds the service object replaced by a redeploy]")
-		}
-		if cont == 3 {
-			// resumed and immediately paused again: a request still held must stay held unless it was released in between
-			secondPause := vLastIndexOf("pause_effective")
-			if secondPause > resumedIdx && li > secondPause && fwd > secondPause {
-				vAssert(false, "pause: a request is not forwarded while the service is paused [woken waiter re-reads the state after resume+pause]")
+		if cont == 7 {
+			// (SetRolloutTargets replaces the balancer on the Service object the waiter holds: no stale copy involved)
+			wantR := "FROM[rold:80]"
+			if ri := vIndexOf("rollout_deployed", -1); ri >= 0 && ri < resumedIdx {
+				wantR = "FROM[r1:80]"
 			}
+			vAssert(res.body == wantR, "pause: on resume a held request is forwarded to the rollout targets the service has at that moment")
+		} else if res.body != want {
+			vAssert(false, "pause: on resume a held request is forwarded to the targets the service has at that moment [waiter holds the service object replaced by a redeploy]")
 		}
 	default:
 		vAssert(false, "pause: a held request ends as forwarded (200), stopped (503) or timed out (504)")
@@ -207,4 +277,74 @@ func HarnessPauseHold() {
 	vCover(res.status == 504, "held request timed out reachable")
 	vCover(res.status == 503, "held request stopped reachable")
 	vCover(res.status == 200 && cont == 1, "held request resumed reachable")
+}
+
+// HarnessPauseRace: two of the gate commands (pause, repeated pause, resume, stop) overlap on a service that is
+// running or already paused; once both have returned the gate is in one definite state, and a request arriving then
+// must be treated according to it: held to its max-pause and answered 504 if paused, answered 503 with the stop
+// message if stopped, forwarded if running. (The commands are not wrapped: every interleaving inside Pause, Resume
+// and Stop is the scheduler's.)
+func HarnessPauseRace() {
+	vT2(vParam("preemptions", 1), vParam("firings", 10))
+	vWatchPauseEvents()
+	if vParam("policies", 2) == 2 {
+		vSchedPolicy(vChoose("sched_policy", 2))
+	}
+	vSortMode = 0
+	router := NewRouter("/state")
+	maxPause := vDur("max_pause")
+	topts := TargetOptions{HealthCheckConfig: HealthCheckConfig{Path: "/up", Interval: 1 << 40, Timeout: 1000}}
+	svc, _ := vInstallOldService(router, topts)
+	root := vRootChain(router)
+	if vChoose("initially_paused", 2) == 1 {
+		vAssert(router.PauseService("svc", 0, maxPause) == nil, "pause race: initial pause accepted")
+	}
+	command := func(which int) {
+		switch which {
+		case 0:
+			router.PauseService("svc", 0, maxPause)
+		case 1:
+			router.ResumeService("svc")
+		case 2:
+			router.StopService("svc", 0, "halt")
+		}
+	}
+	c1 := vChoose("command1", 3)
+	c2 := vChoose("command2", 3)
+	done := 0
+	go func() { command(c1); done++ }()
+	go func() { command(c2); done++ }()
+	vBlockUntil(func() bool { return done == 2 })
+	final := svc.pauseController.GetState()
+	vEmit(vEvent{kind: "cmd_return"})
+	at := vNow()
+	vProxyPlans[0] = &vProxyPlan{service: 0}
+	go func() {
+		vDaemon()
+		vDoRequestM(root, 0, "POST", "h", "/x")
+	}()
+	vBlockUntil(func() bool { return vClientsSettled(1) })
+	vNote(vTraceString())
+	res := vClientResults[0]
+	vAssert(res != nil, "pause race: the request is eventually answered")
+	if res == nil {
+		return
+	}
+	fwd := vIndexOf("forward_begin", 0)
+	switch final {
+	case PauseStatePaused:
+		vAssert(fwd < 0, "pause race: a request arriving while the service is paused is held, not forwarded")
+		vAssert(res.status == 504 && res.at == at+int64(maxPause), "pause race: a request held for max-pause is answered 504 at that instant")
+	case PauseStateStopped:
+		vAssert(fwd < 0 && res.status == 503 && res.body == "PAGE[builtin/503.html]" && len(vRenders) == 1, "pause race: a request to a stopped service is answered with the 503 page")
+		if len(vRenders) == 1 {
+			got, ok := vRenders[0].args.(struct{ Message string })
+			vAssert(ok && got.Message == "halt", "pause race: ... carrying the stop message")
+		}
+	default:
+		vAssert(fwd >= 0 && res.status == 200, "pause race: a request to a running service is forwarded")
+	}
+	vCover(final == PauseStatePaused, "final state paused reachable")
+	vCover(final == PauseStateStopped, "final state stopped reachable")
+	vCover(final == PauseStateRunning, "final state running reachable")
 }
